@@ -95,3 +95,12 @@ pub fn panic_msg(p: &Box<dyn std::any::Any + Send>) -> String {
         "panic".to_string()
     }
 }
+
+/// fmt sink that only counts (no allocation)
+pub struct CountSink(pub usize);
+impl std::fmt::Write for CountSink {
+    fn write_str(&mut self, s: &str) -> std::fmt::Result {
+        self.0 += s.len();
+        Ok(())
+    }
+}
